@@ -575,7 +575,11 @@ def microdvd_site(ctx, report, ev, folder):
         fps_exact = (k[0] == "default" and isinstance(k[1], int)) or (k[0] == "declared" and k[1] in ("Fraction", "int"))
         if not (fps_float or fps_exact):
             raise AnalysisError(f"MicroDVD fps kind not recognised: {k}")
-        rounds = _roundings(body_expr, {"framenum": "int", "fps": "float" if fps_float else "exact"})
+        if k[0] == "default" and isinstance(k[1], float) and float(k[1]).is_integer():
+            fk = "intfloat"
+        else:
+            fk = "float" if fps_float else "exact"
+        rounds = _roundings(body_expr, {"framenum": "int", "fps": fk})
         ok = rounds <= 1
         report.check(ok, "R-EXACT", fn, label_k,
                      {"expression": short(body_expr), "float_roundings_before_truncation": rounds,
@@ -599,28 +603,42 @@ def microdvd_site(ctx, report, ev, folder):
 
 
 def _roundings(expr, kinds):
-    """Number of binary-float roundings in evaluating expr (E7 lattice):
-    exact (int/Fraction) operands stay exact; an operation with a float operand,
-    or true division of two exact ints, rounds once."""
+    """Number of binary-float roundings in evaluating expr (E7 lattice).
+    kinds of operands: 'int' (exact integer), 'exact' (Fraction), 'intfloat' (a
+    float holding an integral value, e.g. the literal 25.0: products with
+    integers stay exact below 2^53), 'float' (arbitrary binary float).
+    An operation rounds once when it has a float operand and can produce a
+    non-representable result; int/int true division rounds once."""
     def go(e):
         if isinstance(e, ast.Constant):
-            return ("float" if isinstance(e.value, float) else "exact", 0)
+            if isinstance(e.value, float):
+                return ("intfloat" if e.value.is_integer() else "float", 0)
+            return ("int", 0)
         if isinstance(e, ast.Name):
             k = kinds.get(e.id)
             if k is None:
                 raise AnalysisError(f"numkind: unknown operand {e.id}")
-            return ("float", 0) if k == "float" else ("exact", 0) if k in ("int", "exact") else (k, 0)
+            return (k, 0)
         if isinstance(e, ast.BinOp):
             (ka, ra), (kb, rb) = go(e.left), go(e.right)
-            if ka == "float" or kb == "float":
-                return ("float", ra + rb + 1)
-            if isinstance(e.op, ast.Div) and kinds.get("_all_int", False):
-                return ("float", ra + rb + 1)
+            r = ra + rb
+            if isinstance(e.op, ast.Pow):
+                return ("int" if ka == kb == "int" else "float", r + (0 if ka == kb == "int" else 1))
+            if "float" in (ka, kb):
+                return ("float", r + 1)
             if isinstance(e.op, ast.Div):
-                # exact / exact: Fraction stays exact, int/int rounds once
-                ints = all(_is_int_operand(x, kinds) for x in (e.left, e.right))
-                return ("float", ra + rb + 1) if ints else ("exact", ra + rb)
-            return ("exact", ra + rb)
+                if ka == "exact" or kb == "exact":
+                    if "intfloat" in (ka, kb):
+                        return ("float", r + 1)
+                    return ("exact", r)
+                return ("float", r + 1)
+            if "intfloat" in (ka, kb):
+                if "exact" in (ka, kb):
+                    return ("float", r + 1)
+                return ("intfloat", r)      # int (*,+,-) intfloat: exact below 2^53
+            if "exact" in (ka, kb):
+                return ("exact", r)
+            return ("int", r)
         if isinstance(e, ast.Call) and call_name(e) in ("int", "math.floor", "float"):
             return go(e.args[0])
         if isinstance(e, ast.UnaryOp):
